@@ -50,14 +50,17 @@ def MonthCode.validateIso (c : MonthCode) : Out Unit :=
   if !c.leap ∧ 1 ≤ c.num ∧ c.num ≤ 12 then .ok () else .err .range
 
 /-- `impl_with_fallback_method!`: merge a partial with a receiver's (year, month, day). `withDay = false` is the
-    year-month instantiation (the day is not carried). -/
+    year-month instantiation (the day is not carried). After the fixes: a year designation among the given fields
+    (year, era or era year) replaces the receiver's (an ISO receiver has no era, so its designation is its year), and
+    the receiver's month is carried by its month code alone. -/
 def PartialDate.withFallback (p : PartialDate) (fy fm fd : Int) (withDay : Bool) : Out PartialDate := do
   let (month, code) ← (match p.month, p.monthCode with
     | some m, some c => Out.ok (some m, some c)
     | some m, none => Out.ok (some m, none)          -- after the fix: the month code is derived later, after clamping
     | none, some c => .ok (some (c.num : Int), some c)
-    | none, none => do let c ← monthToMonthCode fm; pure (some fm, some c) : Out (Option Int × Option MonthCode))
-  pure { year := some (p.year.getD fy), month := month, monthCode := code,
+    | none, none => do let c ← monthToMonthCode fm; pure (none, some c) : Out (Option Int × Option MonthCode))
+  let year := if p.year.isSome ∨ p.era ∨ p.eraYear.isSome then p.year else some fy
+  pure { year := year, month := month, monthCode := code,
          day := if withDay then some (p.day.getD fd) else none, era := p.era, eraYear := p.eraYear }
 
 /-- `EraYear::try_from_partial_date` for the ISO calendar → the year. -/
@@ -192,9 +195,10 @@ def monthDayNew (m d : Int) (ov : Overflow) (refYear : Option Int) : Out IsoDate
   IsoDate.newWithOverflow (refYear.getD 1972) m d ov
 
 /-- `PlainDate::to_plain_year_month` -/
-def dateToYearMonth (r : IsoDate) : Out IsoDate :=
-  yearMonthFromPartial { year := some r.year, month := some r.month, monthCode := some ⟨r.month.toNat, false⟩,
-                         day := none, era := false, eraYear := none } .constrain
+def dateToYearMonth (r : IsoDate) : Out IsoDate := do
+  let p ← ({ year := none, month := none, monthCode := none, day := none, era := false, eraYear := none } : PartialDate).withFallback
+    r.year r.month r.day true
+  yearMonthFromPartial p .constrain
 
 /-- `PlainDate::to_plain_month_day` -/
 def dateToMonthDay (r : IsoDate) : Out IsoDate := do
